@@ -62,7 +62,8 @@ def ident(n):
 
 
 def lean_ty(t):
-    return {'Np': 'List Int', 'NpBool': 'List Bool', 'None': 'Unit', 'Str': 'String', 'Set Int': 'List Int'}.get(t, t)
+    return {'Np': 'List Int', 'NpBool': 'List Bool', 'None': 'Unit', 'Str': 'String', 'Set Int': 'List Int',
+            'Parts': 'List (String × Melody)', 'List Str': 'List String'}.get(t, t)
 
 
 def ilit(k):
@@ -109,6 +110,7 @@ class Spec:
         self.value_types = set()          # record types with value semantics (`x.copy()` is the identity on the model's values)
         self.kinds = set()                # note type strings that exist as `Kind` constructors
         self.tuple_fields = {}            # (record type, constant index) -> (template, type): rows stored as Python lists
+        self.index_methods = {}           # container type -> (template over {0}=container,{1}=key, key type, result type)
         self.copy_template = {}           # value type -> what `x.copy()` is on the model's values (default: the identity)
 
 
@@ -347,6 +349,12 @@ class FunTr:
             if ity != 'Int':
                 raise Untranslatable('slice bound')
             return f'(Py.{fn} {v} {i})', 'List Int'
+        if vty in self.spec.index_methods:
+            tmpl, kty, rty = self.spec.index_methods[vty]
+            k_, kty_ = self.expr(e.slice, env, B)
+            if lean_ty(kty_) != lean_ty(kty):
+                raise Untranslatable(f'key of {vty}: {kty_}')
+            return self.bind(B, tmpl.format(v, k_), rty)
         if isinstance(e.slice, ast.Constant) and (vty, e.slice.value) in self.spec.tuple_fields:
             tmpl, rty = self.spec.tuple_fields[(vty, e.slice.value)]
             return tmpl.format(v), rty
@@ -361,11 +369,11 @@ class FunTr:
     def e_Attribute(self, e, env, B):
         v, vty = self.expr(e.value, env, B)
         key = (vty, e.attr)
+        if (vty, e.attr) in self.spec.funs_by_attr:        # a translated property wins over a binding to the model
+            return self.call_fun(self.spec.funs_by_attr[(vty, e.attr)], [(v, vty)], B)
         if key in self.spec.attrs:
             tmpl, rty = self.spec.attrs[key]
             return self.bind(B, tmpl.format(v), rty)
-        if (vty, e.attr) in self.spec.funs_by_attr:
-            return self.call_fun(self.spec.funs_by_attr[(vty, e.attr)], [(v, vty)], B)
         raise Untranslatable(f'attribute {vty}.{e.attr} at line {e.lineno}')
 
     def call_fun(self, pyname, args, B):
@@ -411,6 +419,15 @@ class FunTr:
                 if not is_list(ty):
                     raise Untranslatable(f'len({ty})')
                 return f'(Py.len {t})', 'Int'
+            if n in ('sum', 'max') and len(e.args) == 1:
+                t, ty = self.expr(e.args[0], env, B)
+                if not is_list(ty) or elem_ty(ty) not in ('Rat', 'Int'):
+                    raise Untranslatable(f'{n}({ty})')
+                et = elem_ty(ty)
+                if n == 'sum':
+                    # Python's sum starts from the int 0; as a Fraction that is the same number
+                    return (f'(sumRat {t})' if et == 'Rat' else f'(Py.sum {t})'), et
+                return self.bind(B, (f'Py.maxRat {t}' if et == 'Rat' else f'Py.maxInt {t}'), f'Res {et}')
             if n == 'abs' and len(e.args) == 1:
                 t, ty = self.expr(e.args[0], env, B)
                 if ty != 'Int':
